@@ -108,6 +108,14 @@ func main() {
 		}
 	}
 	f(c)
+	// contract of every loader, whatever the property being checked: a call ends with a value or an error
+	contractMu.Lock()
+	for i, cb := range contractBreaks {
+		if i < 3 {
+			c.res.fail(Failure{Class: name + ":neither-value-nor-error", Desc: "a loader returned neither metadata nor an error (nil, stream, nil): a caller that checks err and then uses the value crashes", Input: cb, Got: "(nil, nil)", Want: "a value or an error"})
+		}
+	}
+	contractMu.Unlock()
 	c.res.write(*out)
 }
 
